@@ -234,6 +234,66 @@ module L = struct
     print_obs s
 end
 
+(* ------------------------------------------------------------------ linear reference model (LinearSpec.v) *)
+
+(* MUH_SPEC=1: linear histories are replayed on the reference semantics LinearSpec.spec_step and ONLY
+   the R lines are printed (no H/CFG/op/state lines; histories of other algorithms and leaf lines
+   print nothing), to be diffed against `grep '^R'` of the real-code trace. *)
+module S = struct
+  type st = { mutable sp : LinearSpec.spec; live : (int, int * int) Hashtbl.t; mutable next_k : int }
+
+  let init c =
+    let h = if c.handler = "vam" then Gran.HVam else Gran.HFake in
+    { sp = LinearSpec.spec_init h (z_of_int c.gran) (z_of_int c.size); live = Hashtbl.create 16; next_k = 0 }
+
+  let exec s (f : string list) =
+    let i n = int_of_string (Stdlib.List.nth f n) in
+    let zi n = z_of_int (i n) in
+    let maxoff n = if i n < 0 then max_int_z else zi n in
+    match Stdlib.List.hd f with
+    | "A" ->
+      let op = Linear.OAlloc (zi 1, zi 2, zi 3, zi 4, i 5 = 1, maxoff 6, tag_of_int (i 7)) in
+      let (sp', o) = LinearSpec.spec_step s.sp op in
+      s.sp <- sp';
+      (match o.Linear.o_kind with
+       | Util.ROk ->
+         let k = s.next_k in
+         s.next_k <- k + 1;
+         Hashtbl.replace s.live k (int_of_z o.Linear.o_off + 1, int_of_z o.Linear.o_size);
+         Printf.printf "R ok %d %d\n" (int_of_z o.Linear.o_off) (int_of_z o.Linear.o_size)
+       | k -> Printf.printf "R %s\n" (L.kind_str k))
+    | "Q" ->
+      let op = Linear.ORequest (zi 1, zi 2, zi 3, zi 4, i 5 = 1, maxoff 6) in
+      let (_, o) = LinearSpec.spec_step s.sp op in
+      (match o.Linear.o_kind with
+       | Util.ROk -> Printf.printf "R ok %d %d\n" (int_of_z o.Linear.o_off) (int_of_z o.Linear.o_size)
+       | k -> Printf.printf "R %s\n" (L.kind_str k))
+    | "F" ->
+      (match Hashtbl.find_opt s.live (i 1) with
+       | None -> print_endline "R nolive"
+       | Some (h, _) ->
+         let (sp', o) = LinearSpec.spec_step s.sp (Linear.OFree (z_of_int h)) in
+         s.sp <- sp';
+         if o.Linear.o_kind = Util.ROk then Hashtbl.remove s.live (i 1);
+         Printf.printf "R %s\n" (L.kind_str o.Linear.o_kind))
+    | "U" ->
+      (match Hashtbl.find_opt s.live (i 1) with
+       | None -> print_endline "R nolive"
+       | Some (h, _) ->
+         let (sp', o) = LinearSpec.spec_step s.sp (Linear.OSetUD (z_of_int h, tag_of_int (i 2))) in
+         s.sp <- sp';
+         Printf.printf "R %s\n" (L.kind_str o.Linear.o_kind))
+    | "C" ->
+      let (sp', _) = LinearSpec.spec_step s.sp Linear.OClear in
+      s.sp <- sp';
+      Hashtbl.reset s.live;
+      print_endline "R ok"
+    | "M" ->
+      let (_, o) = LinearSpec.spec_step s.sp (Linear.OMayHave (zi 1, zi 2)) in
+      Printf.printf "R ok %d\n" (int_of_z o.Linear.o_off)
+    | _ -> ()
+end
+
 (* ------------------------------------------------------------------ leaf functions (stateless) *)
 
 module Leaf = struct
@@ -263,7 +323,9 @@ end
 
 (* ------------------------------------------------------------------ main loop *)
 
-type anyst = NoSt | LeafSt | TSt of T.st | LSt of L.st
+type anyst = NoSt | LeafSt | TSt of T.st | LSt of L.st | SSt of S.st
+
+let spec_mode = (try Sys.getenv "MUH_SPEC" = "1" with Not_found -> false)
 
 let () =
   let ic = if Array.length Sys.argv > 1 then open_in Sys.argv.(1) else stdin in
@@ -274,6 +336,14 @@ let () =
        let f = Stdlib.List.filter (fun x -> x <> "") (String.split_on_char ' ' line) in
        match f with
        | [] -> ()
+       | _ when spec_mode ->
+         (match f with
+          | "CFG" :: _ ->
+            let c = parse_cfg line in
+            st := (match c.algo with "linear" -> SSt (S.init c) | _ -> NoSt)
+          | ("A" | "Q" | "F" | "U" | "C" | "M") :: _ ->
+            (match !st with SSt s -> S.exec s f | _ -> ())
+          | _ -> ())
        | "H" :: _ -> print_endline line
        | "CFG" :: _ ->
          print_endline line;
